@@ -41,6 +41,9 @@ func fmtErrs(errs []*actionlint.Error) string {
 	return b.String()
 }
 
+// userRule: a rule added by the user of the library (LinterOptions.OnRulesCreated); it reports nothing
+type userRule struct{ actionlint.RuleBase }
+
 var procs = []int{1, 2, 4, 16}
 
 func newLinter(out *bytes.Buffer) *actionlint.Linter {
@@ -618,6 +621,35 @@ func main() {
 		src := "on: push\njobs:\n  a:\n    runs-on: ubuntu-latest\n    steps:\n      - run: echo ${{ fromJSON('" + js + "').ab.foo }} ${{ fromJSON('[\"p\",\"q\"]')[fromJSON('" + js + "').k] }}\n      - run: echo ${{ fromJSON('" + js + "').x.id.foo }} ${{ fromJSON('" + js + "')[0].a.foo }}\n"
 		sum.Dist["site_json_case_keys"]++
 		check("site:json-case-keys:"+js, "JSON literal with keys differing in letter case only", src, func(rep int) result { return lintContent("gen.yaml", []byte(src), rep) })
+	}
+	// (7'') -format templates that list the rule kinds (allKinds walks a map of the registered rules and
+	// sorts it by name), with rules of the library user (OnRulesCreated) whose names differ in
+	// separators / letter case only
+	for ti, tmpl := range []string{"{{range $k := allKinds}}{{$k.Name}}|{{end}}\n", "{{range $i, $k := allKinds}}{{$i}}={{$k.Name}}:{{$k.Description}};{{end}}{{range $ := .}}{{$.Kind}} {{end}}\n"} {
+		for oi, names := range [][]string{{"deploy-check", "deploy_check", "DeployCheck", "deploycheck"}, {"syntax_check", "SyntaxCheck", "zz", "Zz", "z-z", "z_z"}, {"b", "a", "B", "A", "a-", "a_"}} {
+			tmpl, names := tmpl, names
+			src := "on: push\njobs:\n  a:\n    runs-on: ubuntu-latest\n    steps:\n      - run: echo ${{ github.nope }}\n"
+			sum.Dist["site_format_all_kinds"]++
+			check(fmt.Sprintf("site:format-allkinds:%d:%d", ti, oi), "template "+tmpl+" with the user's rules "+strings.Join(names, ", "), src, func(rep int) result {
+				runtime.GOMAXPROCS(procs[rep%len(procs)])
+				var out bytes.Buffer
+				l, err := actionlint.NewLinter(&out, &actionlint.LinterOptions{Color: actionlint.ColorOptionKindNever, Format: tmpl,
+					OnRulesCreated: func(rs []actionlint.Rule) []actionlint.Rule {
+						// (registered in another order every time: the order of registration must not show)
+						for i := range names {
+							rs = append(rs, &userRule{RuleBase: actionlint.NewRuleBase(names[(i+rep)%len(names)], "rule of the user")})
+						}
+						return rs
+					}})
+				hx.Must(err)
+				errs, err := l.Lint("gen.yaml", []byte(src), nil)
+				r := result{Errs: fmtErrs(errs), Out: out.String()}
+				if err != nil {
+					r.Fail = "fatal: " + err.Error()
+				}
+				return r
+			})
+		}
 	}
 	// (7) sites without a model: needs cycles, runner label conflicts (repetition only)
 	for k := 0; k < *nsite; k++ {
